@@ -100,7 +100,8 @@ Proof. vm_compute. reflexivity. Qed.
    zero-size element types: on a ring of N = 2^63-1 slots (queue.NewSize[struct{}](math.MaxInt)
    succeeds), Push puts head at N-1, Add wraps correctly to slot 0, and the next Add computes
    N-1+2 = 2^63 -> -2^63, which is not >= len, so the store panics; with unbounded integers (and
-   for the reference) all three succeed.  The real package panics exactly so (notes/C07-audit.md). *)
+   for the reference) all three succeed.  The real package panics exactly so (notes/C07-audit.md).
+   Peek's (head+k) % len and PopLast's head+n-1 overflow in the same way (C07_unit_model_ex). *)
 Theorem C07_int64_refuted : forall (T : Type) (zero : T) (N : Z) (v : T),
   N = 9223372036854775807 ->
   run_init wrap64 T zero (ISize N) [OPush v 0; OAdd v 0; OAdd v 0] = [QOk RUnit; QOk RUnit; QPanic PIndex] /\
@@ -133,11 +134,18 @@ Example C07_unit_model_ex :
   urun_init idw (ISize N) [OPush tt 0; OAdd tt 0; OAdd tt 0; OLen] = [QOk UUnit; QOk UUnit; QOk UUnit; QOk (UInt 3)] /\
   urun_init wrap64 (ISize (N - 1)) [OPush tt 0; OAdd tt 0; OAdd tt 0; OAdd tt 0] = [QOk UUnit; QOk UUnit; QOk UUnit; QPanic PIndex] /\
   map (rmap oshape) (run_init wrap64 unit tt (ISize N) [OPush tt 0; OAdd tt 0; OAdd tt 0]) = [QOk UUnit; QOk UUnit; QPanic PIndex] /\
+  (* the same overflow in Peek and PopLast, without Add panicking first: Add, Add, then Push wraps
+     head to N-1, so head + n = 2^63 + 1 *)
+  urun_init wrap64 (ISize N) [OAdd tt 0; OAdd tt 0; OPush tt 0; OLen; OPeek 1; OPeek 2]
+    = [QOk UUnit; QOk UUnit; QOk UUnit; QOk (UInt 3); QOk (UVal true); QPanic PIndex] /\
+  urun_init wrap64 (ISize N) [OAdd tt 0; OAdd tt 0; OPush tt 0; OPopLast] = [QOk UUnit; QOk UUnit; QOk UUnit; QPanic PIndex] /\
+  urun_init idw (ISize N) [OAdd tt 0; OAdd tt 0; OPush tt 0; OPeek 2; OPopLast]
+    = [QOk UUnit; QOk UUnit; QOk UUnit; QOk (UVal true); QOk (UVal true)] /\
   urun_init wrap64 (ISize 3) [OPush tt 0; OAdd tt 0; OAdd tt 0; OPush tt 4; OSlice; OPeek (-4); OPeek (-5)]
     = [QOk UUnit; QOk UUnit; QOk UUnit; QOk UUnit; QOk (UList 4); QOk (UVal true); QOk (UVal false)].
 Proof.
   cbv zeta. split; [vm_compute; reflexivity|]. split; [vm_compute; reflexivity|].
-  split; [vm_compute; reflexivity|]. split; [|vm_compute; reflexivity].
+  split; [vm_compute; reflexivity|]. split; [|repeat split; vm_compute; reflexivity].
   (* never evaluate the main model here: its buffer would be a list of 2^63-1 elements *)
   rewrite C07_unit_model. vm_compute. reflexivity.
 Qed.
